@@ -713,8 +713,8 @@ tail:
             down1(s);
             next_text = peg_rule(s, s->bytecode + rule[1], text);
             up1(s);
-            if (NULL == next_text) return NULL;
             s->mode = oldmode;
+            if (NULL == next_text) return NULL;
             int32_t num_sub_captures = s->captures->count - cs.cap;
             Janet lencap;
             if (num_sub_captures <= 0 ||
